@@ -10,15 +10,15 @@ def handleC45 (j : Json) : Except String Verdict := do
   if k != "storm" then return .bad s!"unknown kind {k}"
   let o ← getObj j "out"
   let s ← parseSession o
-  if s.runErr != "" && s.runErr != "context canceled" then
-    return .specfalse "run-error" s!"run() ended with: {s.runErr}"
+  if s.runErr.startsWith "run() did not return" then
+    return .specfalse "run-hangs" s!"{s.runErr}"
   let mut i := 0
   let mut closing := false
   let mut admitted : List Int := []
   let mut exited : List Int := []
   for e in s.evs do
     if e.k == "close_begin" then closing := true
-    if e.k == "admit" then
+    if e.k == "admitted" then
       if closing then
         return .specfalse "noAdmitAfterClosing" s!"event {i}: client {e.c} admitted after close() had begun :: {window s.evs i}"
       admitted := e.c :: admitted
